@@ -42,12 +42,20 @@ def norm(x):
     raise TypeError(f"unsupported element type {type(x)}")
 
 
+def is_bv(x):
+    """Element of a fixed-width UNSIGNED integer dtype (uint8 tensors are arrays of 8-bit bit-vector terms)."""
+    return is_sym(x) and z3.is_bv(x)
+
+
 def arith(x):
-    """Element as an arithmetic value (bool -> 0/1)."""
+    """Element as an arithmetic value (bool -> 0/1; unsigned fixed-width -> its mathematical value, which is
+    what numpy's promotion to a wider dtype yields)."""
     x = norm(x)
     if is_sym(x):
         if z3.is_bool(x):
             return z3.If(x, z3.IntVal(1), z3.IntVal(0))
+        if z3.is_bv(x):
+            return z3.BV2Int(x, False)
         return x
     if isinstance(x, bool):
         return int(x)
@@ -121,22 +129,34 @@ def _const_like(c, term):
 # scalar operations
 
 
+def _same_bv(a, b):
+    return is_bv(a) and is_bv(b) and a.size() == b.size()
+
+
 def add(a, b):
+    if _same_bv(a, b):
+        return a + b  # same unsigned dtype: numpy computes in that dtype (wraps)
     a, b = _lift(a, b)
     return a + b
 
 
 def sub(a, b):
+    if _same_bv(a, b):
+        return a - b
     a, b = _lift(a, b)
     return a - b
 
 
 def mul(a, b):
+    if _same_bv(a, b):
+        return a * b
     a, b = _lift(a, b)
     return a * b
 
 
 def neg(a):
+    if is_bv(a):
+        return -a  # numpy negates an unsigned array in its own dtype: 2**bits - x (0 stays 0)
     return -arith(a)
 
 
@@ -459,6 +479,8 @@ def from_value(v):
     if z3.is_false(v):
         return False
     if z3.is_int_value(v):
+        return v.as_long()
+    if z3.is_bv_value(v):
         return v.as_long()
     if z3.is_rational_value(v):
         return Fraction(v.numerator_as_long(), v.denominator_as_long())
